@@ -246,6 +246,11 @@ func OneShot(kind string, sc *Script, capMs int, wantModel bool) Result {
 		}
 		text += "(get-value (" + strings.Join(names, " ") + "))\n"
 	}
+	if d := os.Getenv("SYMGO_DUMP"); d != "" {
+		f, _ := os.OpenFile(d+".oneshot", os.O_APPEND|os.O_CREATE|os.O_WRONLY, 0644)
+		fmt.Fprintf(f, "; ---- oneshot %s\n%s", kind, text)
+		f.Close()
+	}
 	cmd := exec.Command(argv[0], argv[1:]...)
 	cmd.Stdin = strings.NewReader(text)
 	done := make(chan struct{})
@@ -281,9 +286,13 @@ func OneShot(kind string, sc *Script, capMs int, wantModel bool) Result {
 	}
 	switch first {
 	case "unsat":
-		if strings.Contains(s, "(error") {
-			res.Note = "error line in output"
-			return res
+		// the unconditional (get-value) after an unsat verdict answers "model is
+		// not available"; any other error line makes the run inconclusive
+		for _, l := range lines {
+			if strings.Contains(l, "(error") && !strings.Contains(l, "model is not available") {
+				res.Note = "error line in output: " + strings.TrimSpace(l)
+				return res
+			}
 		}
 		res.Status = "unsat"
 	case "sat":
